@@ -34,6 +34,12 @@ var c13Bundles = [][]c13File{
 	{{"one.soy", "{namespace a}\n/** */\n{template .t}\nfirst\n{/template}\n"},
 		{"two.soy", "{namespace a}\n/** */\n{template .t}\nsecond\n{/template}\n"}},
 	{{"one.soy", "{namespace a}\n{template .t}\n{@param title: string}\n{@param? sub: string}\n<h1>{$title}</h1>{if $sub}{$sub}{/if}{call .p}{param q: $title /}{/call}\n{/template}\n{template .p private=\"true\"}\n{@param q: string}\n({$q})\n{/template}\n"}},
+	// 8..12: rejected bundles whose error text lists several names
+	{{"one.soy", "{namespace a}\n/** */\n{template .t}\n{call .u /}\n{/template}\n/** @param beta\n @param alpha\n @param? opt\n @param gamma */\n{template .u}\n{$alpha}{$beta}{$gamma}{$opt}\n{/template}\n"}},
+	{{"one.soy", "{namespace a}\n/** */\n{template .t}\n{call .u}{param zeta: 1/}{param eta: 2/}{param theta: 3/}{/call}\n{/template}\n/** */\n{template .u}\nu\n{/template}\n"}},
+	{{"one.soy", "{namespace a}\n/** @param u2\n @param u1\n @param u3 */\n{template .t}\nx\n{/template}\n"}},
+	{{"one.soy", "{namespace a}\n/** */\n{template .t}\n{let $l2: 1/}{let $l1: 2/}{let $l3: 3/}x\n{/template}\n"}},
+	{{"one.soy", "{namespace a}\n/** */\n{template .t}\n{$d2}{$d1}{$d3}\n{/template}\n"}},
 }
 
 var c13Globals = data.Map{"G_MAP": data.Map{"k2": data.Int(2), "k1": data.String("v")}, "G_LIST": data.List{data.Int(1), data.String("s")}, "G_STR": data.String("g")}
